@@ -159,8 +159,8 @@ func setup() int {
 		os.WriteFile(filepath.Join(tmp, n), []byte(c), 0o644)
 	}
 	for _, e := range ents {
-		if !strings.HasSuffix(e.Name(), ".tla") {
-			continue
+		if !strings.HasSuffix(e.Name(), ".tla") || strings.HasSuffix(e.Name(), "_proofs.tla") {
+			continue // *_proofs.tla extend the TLAPS module, which only tlapm ships; they are checked by tlapm (C05)
 		}
 		cmd := exec.Command("tla-sany", e.Name())
 		cmd.Dir = tmp
